@@ -61,6 +61,9 @@ def build(cls, D, L, N, dt, seed, flag=False):
         return G.NormalizedLinearStepper(D, N, normalized_linear_coefficients=(0.0, -0.3 * dt, 0.0, -dt / 7.0))
     if cls == "DifficultyLinear(odd)":
         return G.DifficultyLinearStepper(D, N, linear_difficulties=(0.0, 0.4 * min(dt, 50.0), 0.0, -0.1 * min(dt, 1e4)))
+    if cls == "DifficultyLinear(high order)":     # dissipative difficulties of order 6 / 8 on fine grids: the conversion factor N^j 2^(j-1) D is huge
+        gam = (0.0,) * 6 + (0.01,) if flag else (0.0,) * 8 + (-0.01,)
+        return G.DifficultyLinearStepper(D, N, linear_difficulties=gam)
     if cls == "Wave":
         return S.Wave(D, L, N, dt, speed_of_sound=1.4)
     raise KeyError(cls)
@@ -140,6 +143,9 @@ TESTS = dict(no_growth=t_no_growth, mode_decay=t_mode_decay, nyquist_free_unitar
 def witness(ctx):
     import itertools
     deep = ctx.deep
+    # high-order dissipative difficulties on fine 1D grids (order 6: N = 800, order 8: N = 128): white noise must not grow
+    for flag, N in ((True, 800), (False, 128)) + (((True, 1024), (False, 256)) if deep else ()):
+        ctx.check("no_growth", dict(cls="DifficultyLinear(high order)", D=1, N=N, L=1.0, dt=1.0, seed=ctx.seed, flag=flag, steps=2))
     dn = [(1, 9), (1, 10), (2, 6), (2, 7), (3, 4)] if not deep else [(1, 9), (1, 10), (1, 31), (2, 6), (2, 7), (2, 12), (3, 4), (3, 5)]
     for D, N in dn:
         for cls in CLASSES:
@@ -162,5 +168,12 @@ def witness(ctx):
                 ctx.check("mode_decay", dict(cls=cls, D=D, N=N, L=3.0, dt=0.05, k=list(k), seed=ctx.seed))
         for k in ks:
             ctx.check("mode_decay", dict(cls="HyperDiffusion", D=D, N=N, L=3.0, dt=0.05, k=list(k), seed=ctx.seed, flag=True))
+        if N % 2 == 0:
+            # the Nyquist modes of an even grid (checkerboard-type states) are non-constant modes too and must shrink under diffusion
+            nyq = [tuple(N // 2 if c == a else 0 for c in range(D)) for a in range(D)] + ([tuple([N // 2] * D)] if D >= 2 else []) \
+                + ([(N // 2, 1) + (0,) * (D - 2), (1, N // 2) + (0,) * (D - 2)] if D >= 2 else [])
+            for cls in sorted(DISSIPATIVE):
+                for k in nyq:
+                    ctx.check("mode_decay", dict(cls=cls, D=D, N=N, L=3.0, dt=0.05, k=list(k), seed=ctx.seed))
         for L in ((2 * np.pi, 1e5) if not deep else (1.0, 2 * np.pi, 2e4, 1e5)):
             ctx.check("wave_energy", dict(D=D, N=N, L=L, dt=0.3, seed=ctx.seed, steps=3))
